@@ -1032,12 +1032,13 @@ class WCS(object):
                 dname, self.wcs, dinfo["aprefix"]
             )
 
-            if ca != 0:
+            b, cb, border = self.ExtractDistortCoeffs(
+                dname, self.wcs, dinfo["bprefix"]
+            )
+
+            if ca != 0 or cb != 0:
                 self.distort["name"] = dname
 
-                b, cb, border = self.ExtractDistortCoeffs(
-                    dname, self.wcs, dinfo["bprefix"]
-                )
                 ap, cap, aporder = self.ExtractDistortCoeffs(
                     dname, self.wcs, dinfo["apprefix"]
                 )
